@@ -65,7 +65,7 @@ struct Run
 	std::vector<std::unique_ptr<udp::socket>> udps; // one per node, port 5300
 	std::vector<std::vector<unsigned char>> udp_bufs; std::vector<std::unique_ptr<udp::endpoint>> udp_from;
 	std::map<int, int> port_node; // local port -> node (for canonical names)
-	bool saw_two_queued = false, saw_accept_after_syn = false, saw_nat = false, saw_refusal = false, saw_overload2 = false, saw_nat_synack = false, saw_shared_ext = false, saw_reaccept = false;
+	bool saw_two_queued = false, saw_accept_after_syn = false, saw_nat = false, saw_refusal = false, saw_overload2 = false, saw_nat_synack = false, saw_shared_ext = false, saw_reaccept = false, saw_v6_beside_nat = false;
 	void fail(std::string m) { if (err.empty()) err = std::move(m); }
 	void tr(std::string s) { trace.push_back(fmt("t=%lld ", now_ns()) + s); }
 
@@ -78,7 +78,13 @@ struct Run
 		}
 		// a NAT's external address: resolve through the (unique) port
 		auto it = port_node.find(port);
-		if (it != port_node.end()) return fmt("n%da0:%d", it->second, port);
+		if (it != port_node.end())
+		{
+			// clients bind implicitly, i.e. to their node's first IPv4 address (index 1 on an IPv6-first dual-stack node)
+			auto v = w->topo.addrs_of(it->second); std::size_t k = 0;
+			for (std::size_t i = 0; i < v.size(); ++i) if (v[i].is_v4()) { k = i; break; }
+			return fmt("n%da%zu:%d", it->second, k, port);
+		}
 		return a.to_string() + ":" + std::to_string(port);
 	}
 	std::string canon(tcp::endpoint const& e) { return canon(e.address(), e.port()); }
@@ -291,6 +297,7 @@ std::string run_world(Case const& c, Ctx& ctx, bool strip_nat, std::vector<std::
 								, R.w->topo.nodes[std::size_t(cnode)].nat_ext >= 0 ? " behind a NAT" : "", vis.to_string().c_str(), cle.port()));
 						if (C.target_acc != a) R.fail(fmt("client %d dialled acceptor %d but was accepted by acceptor %d", who, C.target_acc, a));
 						if (R.w->topo.nodes[std::size_t(cnode)].nat_ext >= 0) R.saw_nat = true;
+						if (R.w->topo.nodes[std::size_t(cnode)].nat_ext >= 0 && !e3 && cle.address().is_v6()) R.saw_v6_beside_nat = true;
 						if (R.w->topo.nodes[std::size_t(R.aspec[a].node)].nat_ext >= 0) R.saw_nat_synack = true;
 						R.tr(fmt("accepted a=%d client=%d remote=%s local=%s", a, who, R.canon(re).c_str(), R.canon(le).c_str()));
 						sd->my_key = next_key++; sd->peer_key = C.side->my_key;
@@ -494,6 +501,7 @@ std::string run_world(Case const& c, Ctx& ctx, bool strip_nat, std::vector<std::
 	if (R.saw_nat_synack) sum.labels["syn_ack_crossed_nat"] = 1;
 	if (R.saw_shared_ext) sum.labels["shared_external_address"] = 1;
 	if (R.saw_reaccept) sum.labels["reaccept_into_reused_socket"] = 1;
+	if (R.saw_v6_beside_nat) sum.labels["ipv6_connection_from_a_node_whose_ipv4_is_natted"] = 1;
 	sum.nontrivial07 = R.saw_two_queued || R.saw_nat || R.saw_refusal || R.saw_overload2;
 	sum.nontrivial13 = any_nat && (R.saw_nat_synack || R.saw_shared_ext) && R.saw_nat;
 	return err;
@@ -571,6 +579,43 @@ rc::Gen<Case> gen_case(bool c13, int maxops)
 		});
 }
 
+// multi-homed nodes beside NATs: every node has two addresses (IPv4 + IPv6 in either order, or two IPv4), most are
+// NATted (which only concerns their IPv4 addresses), acceptors listen on first and second addresses, clients dial both
+rc::Gen<Case> gen_multihomed(bool c13)
+{
+	return rc::gen::map(rc::gen::tuple(kit::range(2, 4), rc::gen::container<std::vector<long long>>(kit::weighted({{3, 2}, {3, 4}, {1, 3}})), kit::range(1, 15),
+		rc::gen::container<std::vector<std::vector<long long>>>(rc::gen::map(rc::gen::tuple(kit::range(0, 3), kit::range(0, 1), kit::range(0, 1), kit::range(0, 3)), [](std::tuple<long long, long long, long long, long long> t) { return std::vector<long long>{std::get<0>(t), std::get<1>(t), std::get<2>(t), std::get<3>(t)}; })),
+		kit::weighted({{2, 20000}, {1, 1000}})),
+		[c13](std::tuple<long long, std::vector<long long>, long long, std::vector<std::vector<long long>>, long long> t) {
+			Case c;
+			long long const nn = std::get<0>(t);
+			auto const& fams = std::get<1>(t);
+			for (long long i = 0; i < nn; ++i) c.recs.push_back(mk("node", {i < (long long)fams.size() ? fams[std::size_t(i)] : (i % 2 ? 4 : 2)}));
+			long long natmask = std::get<2>(t); if (c13 && (natmask & ((1 << nn) - 1)) == 0) natmask = 3;
+			for (long long i = 0; i < nn; ++i) if ((natmask >> i) & 1) c.recs.push_back(mk("nat", {i, i % 2}));
+			c.recs.push_back(mk("qnet", {-1, -1, 0, std::get<4>(t), 0}));
+			// acceptors 0 and 1 on the last node: first and second address; acceptor 2 on node 0, second address
+			c.recs.push_back(mk("acc", {0, nn - 1, 0, 0})); c.recs.push_back(mk("op", {0, 0, 0, 0}));
+			c.recs.push_back(mk("acc", {1, nn - 1, 1, 0})); c.recs.push_back(mk("op", {0, 1, 0, 0}));
+			c.recs.push_back(mk("acc", {2, 0, 1, 0})); c.recs.push_back(mk("op", {0, 2, 0, 0}));
+			for (int i = 0; i < MAXC; ++i) c.recs.push_back(mk("cli", {i, i % nn}));
+			auto const& ops = std::get<3>(t);
+			// (client, target acceptor, overload, gap)
+			int n = 0;
+			for (auto const& o : ops)
+			{
+				if (n++ >= MAXC) break;
+				c.recs.push_back(mk("op", {1, o[1] ? 1 + (o[0] % 2) : 0, o[2] ? 1 : 2, n % 2}));
+				c.recs.push_back(mk("op", {2, n - 1, o[1] ? 1 + (o[0] % 2) : 0, 0}));
+				static long long const gaps[] = {1, 10000, 45000, 120000};
+				c.recs.push_back(mk("adv", {gaps[o[3]]}));
+				if (o[0] == 3) c.recs.push_back(mk("op", {6, n % nn, (n + 1) % nn, 0}));
+			}
+			c.recs.push_back(mk("adv", {1500000}));
+			return c;
+		});
+}
+
 void campaign(Ctx& ctx)
 {
 	bool const c13 = ctx.opt.prop == "C13";
@@ -578,6 +623,7 @@ void campaign(Ctx& ctx)
 	int const n = thorough ? 100000 : 10000;
 	ctx.rc_campaign("connect/accept scenarios (short)", gen_case(c13, 14), n, 40, 1);
 	ctx.rc_campaign("connect/accept scenarios (long)", gen_case(c13, 50), n / 2, 150, 2);
+	ctx.rc_campaign("multi-homed nodes beside NATs", gen_multihomed(c13), n / 3, 40, 3);
 }
 
 std::vector<Case> generate(Ctx& ctx, int n)
